@@ -177,8 +177,9 @@ Fixpoint ty_gostring (t : ty) : string :=
       end
   end.
 
-(* Targets.Less (after the fix commit): lexicographic on
-   (local address, address, position, scope, type name, name) *)
+(* Targets.Less (after the fix commits): lexicographic on
+   (local address, address, position, scope, type name, name, definition position); the last key of the
+   implementation, the description text, is not part of the model's targets *)
 Definition lex := lexc.
 
 Definition orange_cmp (a b : option range) : comparison :=
@@ -199,7 +200,8 @@ Definition target_cmp (a b : target) : comparison :=
  (lex (orange_cmp (t_rng a) (t_rng b))
  (lex (String.compare (t_scope a) (t_scope b))
  (lex (String.compare (type_name (t_type a)) (type_name (t_type b)))
-      (String.compare (t_name a) (t_name b)))))).
+ (lex (String.compare (t_name a) (t_name b))
+      (orange_cmp (t_def a) (t_def b))))))).
 
 Definition targets_less (a b : target) : bool := match target_cmp a b with Lt => true | _ => false end.
 
